@@ -1,6 +1,6 @@
 """Single source of truth for MANIFEST.json (tools/mkmanifest.py)."""
 
-FIX_COMMITS = ['cca4fac (C19 bbox int coercion)', '1b3ab08 (C05 cutout fill dtype)', '81c7236 (C05 multiply Quantity fill)', '1970dc7 (C20 PixCoord.rotate any shape)', 'c13e427 (C01 polygon scalar contains)', 'b692b96 (C14 FITS lexists)', 'd5e55fe (C14 encode before open)', '7575e32 50480bb b15a97b 942a7aa ec59199 (C17 validators/meta/list/nvertices/text)', 'd91a439 7c95242 bdc0d0d (C12 FITS exclude prefix / include+component / component dtype)', '23f75f4 4b5524a 7cc5a6b (C16/C06 compound sky meta, shape-mismatch ==, symmetric PixCoord ==)', 'dca4ab5 (C18 text kwargs aliases)', 'be2b52e f813781 bd2caa9 1c54a50 (C10 DS9 reader)']
+FIX_COMMITS = ['cca4fac (C19 bbox int coercion)', '1b3ab08 (C05 cutout fill dtype)', '81c7236 (C05 multiply Quantity fill)', '1970dc7 (C20 PixCoord.rotate any shape)', 'c13e427 (C01 polygon scalar contains)', 'b692b96 (C14 FITS lexists)', 'd5e55fe (C14 encode before open)', '7575e32 50480bb b15a97b 942a7aa ec59199 (C17 validators/meta/list/nvertices/text)', 'd91a439 7c95242 bdc0d0d (C12 FITS exclude prefix / include+component / component dtype)', '23f75f4 4b5524a 7cc5a6b (C16/C06 compound sky meta, shape-mismatch ==, symmetric PixCoord ==)', 'dca4ab5 (C18 text kwargs aliases)', 'be2b52e f813781 bd2caa9 1c54a50 (C10 DS9 reader)', 'd58a058 80f2f4f 193fdcf (C09 DS9 writer)', '90d029a 48bc62d 5176ec4 3bd1349 e7c5f7b 10da16e (C11/C13 CRTF)']
 HOOK_COMMITS = []
 
 CHECKS = [
@@ -119,6 +119,30 @@ CHECKS = [
              'NOT proved (validated only): that the arc+triangle expressions of partially covered pixels and the whole ellipse triangle/unit-circle routine equal the true area within 1e-8, values in [0,1] there, sum = analytic area, and the O(L/n) convergence bound.',
      'note': 'Partial proof: the analytic core (area identities) is validated by a differential run: Float instance of the SAME Lean text vs the compiled kernel (1e-12), and kernel vs an independent closed-form integration oracle evaluated with 50-60 digits (1e-8). '
              'Trusted: Lean kernel + 3 std axioms; tools/instantiate.py (one template, two instances); libm.'},
+    {'property_id': 'C06',
+     'technique': 'Lean 4 theorems with the WCS as a parameter (mutually inverse maps; helper result as unit vector + scale), structural induction over region expressions, unit-vector angle algebra; correspondence with real astropy WCS objects (by builder)',
+     'text': 'PARTIAL (WCS is a parameter). Given exactly inverse WCS maps: pixel->sky->pixel and sky->pixel->sky return the same class, operator, text and every numeric parameter for all 11 classes and compounds of any depth (induction); '
+             'meta/visual (incl. include flag and text rotation) preserved with no WCS hypothesis; SkyRegion.contains equals the pixel image answer on converted positions, compounds component-wise. '
+             'The literal sqrt/atan2 helper is proved to meet its root-free spec over R. Real WCS objects satisfy the hypotheses only approximately: exercised by the differential run (TAN/SIN/CAR, rotations, scales, parities, frames).',
+     'note': 'Partial: wcslib/astropy WCS, unit/Angle arithmetic and frames are parameters. Trusted: Lean kernel + 3 std axioms. F2 fixed in /repo (23f75f4).'},
+    {'property_id': 'C07',
+     'technique': 'Lean 4 theorems under a local-similarity hypothesis for the WCS; correspondence against an oracle independent of the helper (SkyCoord.directional_offset_by + world_to_pixel) (by builder)',
+     'text': 'PARTIAL (WCS is a parameter). Given an exact local similarity of standard parity: the helper returns exactly the local scale and north direction (also for the literal sqrt/atan2 code over R); the pixel image of circle/ellipse/rectangle/annuli '
+             'has centre toPix(c), lengths = angular/s and the width axis along rot(alpha)(rot90cw n); sky points at the semi-axes land on the pixel boundary; indeed every sky offset point is inside the pixel shape iff inside the sky shape. '
+             'This is the absolute statement a round trip cannot see. That TAN/SIN are similarities to the needed order is validated by the run only.',
+     'note': 'Partial: WCS is a parameter; centres limited to 1 deg off-axis in the run (second-order term). Trusted: Lean kernel + 3 std axioms; astropy offsets as the independent oracle.'},
+    {'property_id': 'C09',
+     'technique': 'Lean 4 theorems on a structured model of DS9 writer and reader (lists of any length, all hash orders, parameterised by writer-fix flags) + exact decimal printer/reader; correspondence on text and parsed regions incl. cross-PYTHONHASHSEED runs (by builder)',
+     'text': 'dec_roundtrip (|read(fmt p x) - x| <= half a unit for every rational and precision); ds9_roundtrip (class, frame, text/label/tags, include sense, every number = its printed rounding; ellipse full axes within one unit, stated), '
+             'ds9_fixed_point on the reader image, skip_independent, output independent of hash order. Full round trip refuted only by F19 (size below half a printed unit prints 0.000; open, limit of fixed notation) and proved on the exact complement class. '
+             'Character-level lex(render o) is evaluated per case, not a theorem; astropy number formatting enters as hypotheses checked by value.',
+     'note': 'Trusted: Lean kernel + 3 std axioms; astropy to_string formatting (SkyLaw/SkyFix hypotheses). F3/F4/F5/F50 fixed in /repo; F19 open.'},
+    {'property_id': 'C11',
+     'technique': 'Lean 4 theorems on a structured model of the CRTF writer and two-phase reader with exact decimal formatting; correspondence: model text == real text (string equality), model parse == real parse; (by builder)',
+     'text': 'dec_roundtrip; crtf_roundtrip (one region per input, class, include sense, annotation type, geometry within half a unit of fmt, ellipse axes swap/halving involutive and never touching the angle, label/text/scalar meta), '
+             'crtf_fixed_point, global default / inline override, coord= frame selection, prefix rules, units required, box forms agree — for lists of any length. The real regex tokenisation is tied by correspondence only. '
+             'Open: F19 (shared with C09) and F31 (labelcolor dropped on write; patch would break a stored expected test file).',
+     'note': 'Trusted: Lean kernel + 3 std axioms; astropy frame transforms/unit parsing as parameters. F6/F7/F20/F21/F32/F33 fixed in /repo.'},
 ]
 
 _PENDING = 'check not built yet in this session (see DESIGN.md build order); not a statement that the technique cannot apply'
